@@ -153,9 +153,27 @@ def system_case(case):
     return dict(ops=[], impl=[], viols=viols[:3], nontrivial=("system", min(stat["rep"] // 5, 8), bool(case["spec"].get("mg"))) if stat["rep"] else None, tag="system")
 
 
+def section_pair_case(case):
+    """Manual control, two lines of one switch-less section fail one after the other (the first contingency has the whole section
+    sectioned: every line of it, healthy ones included, gets the sectioning time added to its remaining outage time).  Compared
+    state by state with the switching model; oracle: right after a line fails its remaining outage time is the drawn repair time."""
+    from . import ctl
+    v, ops, impl, info = ctl.run_scenario(case)
+    viols = []
+    for op, st in zip(ops, impl):
+        if op.startswith("ctl fail "):
+            _, _, li, rep = op.split(" ")
+            R = st.split(" R=")[1].split(" ")[0].split(",")
+            if F(R[int(li)]) != F(rep):
+                viols.append(("line.repair-draw", f"line {v.lines[int(li)].name} fails with a drawn repair time of {rep} h: its remaining outage time right after the failure is {R[int(li)]} h (outside the support of the configured distribution)"))
+    return dict(ops=ops, impl=impl, viols=viols[:3], nontrivial=("section-pair", len(ops), len(case["faults"])), tag="section-pair")
+
+
 def handler(case):
     if case["kind"] == "system":
         return system_case(case)
+    if case["kind"] == "section-pair":
+        return section_pair_case(case)
     with c17._Exact():
         return _handler(case)
 
@@ -459,6 +477,18 @@ def gen(rng, n):
             spec["mg"]["listed_twice"] = True
         cases.append({"kind": "system", "spec": spec, "n_inc": 60, "dt": rng.choice([1.0, 0.5]), "seed": rng.randint(0, 10 ** 6),
                       "line_rate": rng.choice([1500.0, 3000.0]), "dev_rate": rng.choice([3000.0, 6000.0]), "dev_rep": rng.choice([3.0, 4.0])})
+    for q in range(max(4, n // 20)):
+        from . import c07
+        nl = rng.randint(3, 5)
+        parent = [-1] + [rng.randint(0, i - 1) for i in range(1, nl)]
+        dt = rng.choice([F(1, 2), F(1, 4), F(1)]); T = rng.choice([F(1), F(3, 2), F(1, 2)])
+        spec = c07.feeder_spec([parent], 0, T)
+        a, b = rng.sample(range(nl), 2)
+        k1 = rng.randint(1, 3)
+        k2 = k1 + int((T + F(5, 2)) / dt) + int(T / dt) + rng.randint(2, 6)
+        c = c07.make_case(spec, {str(k1): [[f"F0L{a}", str(rng.choice([F(1), F(2), F(5, 2)]))]], str(k2): [[f"F0L{b}", str(rng.choice([F(1), F(2), F(4, 3)]))]]}, dt, "pair")
+        c["kind"] = "section-pair"
+        cases.append(c)
     return cases
 
 
@@ -536,9 +566,10 @@ def run(res):
     n = 80 if res.tier == "quick" else 1200
     res.rule = ("histories of update/query calls on real Bus(trafo)/Line/ICTLine/ICTNode/Sensor(1-3, some sharing the default manual repair time)/"
                 "IntelligentSwitch/MainController objects with replayed draws, steps in s/min/h/day, rates 0..1e6; "
-                "system: 60-increment sequential runs of built ICT-controlled systems (microgrid, its connecting line listed with both networks in every other case) whose lines, sensors and intelligent switches fail by themselves: whatever stays under repair loses exactly one step of remaining time per increment; "
+                "section-pair: two lines of one switch-less section fail one after the other under manual control (full-state comparison with the switching model; the remaining outage time right after a failure is the drawn repair time); system: 60-increment sequential runs of built ICT-controlled systems (microgrid, its connecting line listed with both networks in every other case) whose lines, sensors and intelligent switches fail by themselves: whatever stays under repair loses exactly one step of remaining time per increment; "
                 "non-trivial/distinct = distinct set of (pre-state, post-state, draws) transitions per history")
-    run_cases(res, gen(rng, n), handler)
+    from . import ctl
+    run_cases(res, gen(rng, n), handler, lambda case, m, i: ([ctl.strip_ok(x) for x in m] == i) if case["kind"] == "section-pair" else m == i)
     statistics(res)
 
 
